@@ -990,6 +990,12 @@ func genNode(t *rapid.T, depth, maxDepth int) *Node {
 			continue
 		}
 		seen[id] = true
+		// now and then the key of an EARLIER entry is given again later (not next to it in the
+		// caller's order): the encoder must refuse the map - what it emits is never a map with a
+		// repeated key
+		if i >= 2 && len(m.Entries) >= 2 && rapid.IntRange(0, 11).Draw(t, "dupkey") == 0 {
+			k = m.Entries[rapid.IntRange(0, len(m.Entries)-2).Draw(t, "dupof")].K
+		}
 		d := depth + 1
 		if big {
 			d = maxDepth
